@@ -41,7 +41,28 @@ fn build(case: &Case) -> InstRep {
     let lin: Vec<(u64, f64)> = case.terms.iter().filter(|t| t.0.len() == 1).map(|t| (t.0[0], fval((t.1, t.2)))).collect();
     let quad: Vec<(u64, u64, f64)> = case.terms.iter().filter(|t| t.0.len() == 2).map(|t| (t.0[0], t.0[1], fval((t.1, t.2)))).collect();
     let c = fval(case.constant);
+    // "-split" representations list the first term twice (2c and -c) in unsorted order: wire-legal, same polynomial
+    let split_lin = |lin: &Vec<(u64, f64)>| -> Vec<(u64, f64)> {
+        match lin.first() {
+            Some((id, co)) => {
+                let mut v = vec![(*id, 2.0 * co)];
+                v.extend(lin.iter().skip(1).rev().cloned());
+                v.push((*id, -co));
+                v
+            }
+            None => vec![],
+        }
+    };
     let f = match case.repr.as_str() {
+        "linear-split" => FnRep::Lin { terms: split_lin(&lin), c },
+        "quadratic-split" => {
+            let mut e = quad.clone();
+            if let Some((r, cc, v)) = quad.first().cloned() {
+                e[0] = (r, cc, 2.0 * v);
+                e.push((cc, r, -v));
+            }
+            FnRep::Quad { entries: e, lin: Some((split_lin(&lin), c)) }
+        }
         "linear" => FnRep::Lin { terms: lin, c },
         "quadratic" => FnRep::Quad { entries: quad, lin: if lin.is_empty() && c == 0.0 { None } else { Some((lin, c)) } },
         _ => {
@@ -229,7 +250,10 @@ pub fn check_case(l: &mut Local, case: &Case) {
     if case.continuous_var != 0 {
         return; // continuous variable not occurring in f: outside the alphabet
     }
-    let linear_distinct = f_exact.0.keys().all(|k| k.len() <= 1);
+    // For unnormalised ("-split") messages interval analysis over the listed terms is legitimately
+    // weaker than over the merged polynomial: only the feasible-set and structural oracles apply.
+    let normalised = !case.repr.ends_with("-split");
+    let linear_distinct = normalised && f_exact.0.keys().all(|k| k.len() <= 1);
     // add_slack analyses f itself in floating point (no integer rounding): assert the determined
     // outcomes only when floats are exact (dyadic coefficients) or the margin is at least 1/12
     let dyadic = case.terms.iter().all(|t| [1, 2, 4].contains(&t.2)) && [1, 2, 4].contains(&case.constant.1);
@@ -262,7 +286,7 @@ pub fn check_case(l: &mut Local, case: &Case) {
             } else {
                 // must be the slack-range limit (convert only)
                 let range_needed = -ilo.clone();
-                if case.method == "add_slack" || range_needed <= qi(case.param as i64) {
+                if normalised && (case.method == "add_slack" || range_needed <= qi(case.param as i64)) {
                     l.violation(
                         &format!("{sig0}/valid-call-rejected"),
                         || json!(case),
@@ -443,8 +467,12 @@ pub fn run(ctx: &Ctx) -> Finish {
                 }
                 let vars: Vec<(u64, i32, i64, i64)> = bc.iter().enumerate().map(|(k, b)| (k as u64 + 1, bx[*b].0, bx[*b].1, bx[*b].2)).collect();
                 l.states += 1;
-                let repr = if !has_quad && (i + bi) % 3 != 2 {
+                let repr = if !has_quad && (i + bi) % 4 == 3 {
+                    "linear-split"
+                } else if !has_quad && (i + bi) % 3 != 2 {
                     "linear"
+                } else if (i + bi) % 5 == 4 {
+                    "quadratic-split"
                 } else if (i + bi) % 2 == 0 {
                     "quadratic"
                 } else {
